@@ -28,6 +28,11 @@ M = "setuptools_v65_version"
 OPS = {"__lt__": ast.Lt, "__le__": ast.LtE, "__eq__": ast.Eq, "__ge__": ast.GtE, "__gt__": ast.Gt, "__ne__": ast.NotEq}
 
 
+# PEP 440, appendix B (packaging.version.VERSION_PATTERN), written without groups names and comments
+PEP440_REFERENCE = (r"v?(?:(?:[0-9]+!)?[0-9]+(?:\.[0-9]+)*(?:[-_\.]?(?:a|b|c|rc|alpha|beta|pre|preview)[-_\.]?(?:[0-9]+)?)?"
+                    r"(?:(?:-[0-9]+)|(?:[-_\.]?(?:post|rev|r)[-_\.]?(?:[0-9]+)?))?(?:[-_\.]?dev[-_\.]?(?:[0-9]+)?)?)(?:\+[a-z0-9]+(?:[-_\.][a-z0-9]+)*)?")
+
+
 def _deref(fn, e: ast.AST) -> ast.AST:
     """A bare local name stands for its single definition (pieces computed into locals before the constructor call)."""
     if isinstance(e, ast.Name):
@@ -198,6 +203,19 @@ def run(ctx) -> None:
     txt = unparse(rx)
     ok = txt.startswith("re.compile('^\\\\s*' + VERSION_PATTERN + '\\\\s*$'") and "re.VERBOSE" in txt and "re.IGNORECASE" in txt
     ctx.check("R5", ok, "Version._regex = ^\\s* VERSION_PATTERN \\s*$ with VERBOSE|IGNORECASE", f"{M}.Version._regex is not anchored / case-insensitive", txt, loc=f"src/bumpver/{M}.py")
+    # the recognised language is PEP 440's (appendix B), whatever the spelling of the regex: DFA equality with the reference
+    import re as _re5
+    from sa import relang as _rl5
+    try:
+        lang_now = _rl5.from_regex(prog.const(M, "VERSION_PATTERN"), _re5.VERBOSE | _re5.IGNORECASE)
+        lang_ref = _rl5.from_regex(PEP440_REFERENCE, _re5.IGNORECASE)
+        w1, w2 = _rl5.included(lang_now, lang_ref), _rl5.included(lang_ref, lang_now)
+        ctx.check("R5", w1 is None and w2 is None, "L(VERSION_PATTERN) == L(PEP 440 appendix B regex)  (DFA equality, case-insensitive)",
+                  f"{M}.VERSION_PATTERN: the set of strings read as PEP 440 versions changed",
+                  (f"{w1!r} is now read as a PEP 440 version" if w1 is not None else f"{w2!r} is a PEP 440 version but falls back to the legacy ordering (below every PEP 440 version)"),
+                  loc=f"src/bumpver/{M}.py", witness=w1 if w1 is not None else w2)
+    except _rl5.UnsupportedRegex as ex:
+        ctx.observe(f"VERSION_PATTERN not converted to an automaton ({ex}); its language is not compared with the reference")
     ok = any(isinstance(s, ast.Raise) and "InvalidVersion" in unparse(s) for s in ast.walk(vinit.node))
     ctx.check("R5", ok, "Version.__init__ raises InvalidVersion when the regex does not match", f"{M}.Version.__init__: invalid strings are not rejected with InvalidVersion", "", loc=vinit.loc())
     pv = prog.function("version.parse_version")
